@@ -9,17 +9,17 @@ import (
 
 // Timer is the model of time.Timer / time.AfterFunc on the virtual clock.
 type Timer struct {
-	name     string
-	hid      H
-	h        H // history hash (state changing operations)
-	active   bool
-	deadline int64
-	C        chan time.Time
-	c        *Chan
-	fn       func()
-	fires    int
-	idleOnly bool // harness observer timer: fires only when no other transition is enabled
-	armedAtFire int // idleOnly: how many OTHER timers were armed at the quiescent instant it fired
+	name        string
+	hid         H
+	h           H // history hash (state changing operations)
+	active      bool
+	deadline    int64
+	C           chan time.Time
+	c           *Chan
+	fn          func()
+	fires       int
+	idleOnly    bool // harness observer timer: fires only when no other transition is enabled
+	armedAtFire int  // idleOnly: how many OTHER timers were armed at the quiescent instant it fired
 }
 
 func (t *Timer) stateHash() H {
